@@ -128,7 +128,7 @@ static int is_valid_acf_packet(uint8_t* acf_pdu)
 static int new_packet(int sk_fd, int can_socket) {
 
     int res = 0;
-    uint64_t proc_bytes = 0, msg_proc_bytes = 0;
+    uint64_t proc_bytes = 0, msg_proc_bytes = 0, pdu_length;
     uint32_t udp_seq_num;
     uint16_t msg_length, can_payload_length, acf_msg_length;
     uint8_t subtype;
@@ -144,13 +144,23 @@ static int new_packet(int sk_fd, int can_socket) {
         return 0;
     }
 
+    pdu_length = res;
+
     if (use_udp) {
+        if (pdu_length < AVTP_UDP_HEADER_LEN) {
+            return 0;
+        }
         udp_pdu = pdu;
         udp_seq_num = Avtp_Udp_GetEncapsulationSeqNo((Avtp_Udp_t *)udp_pdu);
         cf_pdu = pdu + AVTP_UDP_HEADER_LEN;
         proc_bytes += AVTP_UDP_HEADER_LEN;
     } else {
         cf_pdu = pdu;
+    }
+
+    // Drop datagrams that are too short to hold the control format header
+    if (pdu_length < proc_bytes + AVTP_COMMON_HEADER_LEN) {
+        return 0;
     }
 
     subtype = Avtp_CommonHeader_GetSubtype((Avtp_CommonHeader_t*)cf_pdu);
@@ -160,14 +170,30 @@ static int new_packet(int sk_fd, int can_socket) {
     }
 
     if (subtype == AVTP_SUBTYPE_TSCF){
-        proc_bytes += AVTP_TSCF_HEADER_LEN;
+        if (pdu_length < proc_bytes + AVTP_TSCF_HEADER_LEN) {
+            return 0;
+        }
         msg_length = Avtp_Tscf_GetStreamDataLength((Avtp_Tscf_t*)cf_pdu);
+        proc_bytes += AVTP_TSCF_HEADER_LEN;
     } else {
-        proc_bytes += AVTP_NTSCF_HEADER_LEN;
+        if (pdu_length < proc_bytes + AVTP_NTSCF_HEADER_LEN) {
+            return 0;
+        }
         msg_length = Avtp_Ntscf_GetNtscfDataLength((Avtp_Ntscf_t*)cf_pdu);
+        proc_bytes += AVTP_NTSCF_HEADER_LEN;
+    }
+
+    // Drop datagrams whose length field announces more data than was received
+    if (proc_bytes + msg_length > pdu_length) {
+        return 0;
     }
 
     while (msg_proc_bytes < msg_length) {
+
+        // Each ACF CAN message needs at least its header
+        if (msg_length - msg_proc_bytes < AVTP_CAN_HEADER_LEN) {
+            return 0;
+        }
 
         acf_pdu = &pdu[proc_bytes + msg_proc_bytes];
 
@@ -179,7 +205,16 @@ static int new_packet(int sk_fd, int can_socket) {
 
         can_payload = Avtp_Can_GetPayload((Avtp_Can_t*)acf_pdu);
         acf_msg_length = Avtp_Can_GetAcfMsgLength((Avtp_Can_t*)acf_pdu)*4;
-        can_payload_length = Avtp_Can_GetCanPayloadLength((Avtp_Can_t*)acf_pdu);
+
+        // The message must hold its header and padding and must end inside the received data
+        if (acf_msg_length < AVTP_CAN_HEADER_LEN + Avtp_Can_GetPad((Avtp_Can_t*)acf_pdu) ||
+            acf_msg_length > msg_length - msg_proc_bytes) {
+            return 0;
+        }
+        can_payload_length = acf_msg_length - AVTP_CAN_HEADER_LEN - Avtp_Can_GetPad((Avtp_Can_t*)acf_pdu);
+        if (can_payload_length > ((can_variant == AVTP_CAN_FD) ? CANFD_MAX_DLEN : CAN_MAX_DLEN)) {
+            return 0;
+        }
         msg_proc_bytes += acf_msg_length;
 
         // Handle EFF Flag
